@@ -261,8 +261,12 @@ func (db *RockDB) collExpire(ts int64, dt byte, key []byte, duration int64) (int
 		return 0, err
 	}
 
+	when, err := expireWhen(ts, duration)
+	if err != nil {
+		return 0, err
+	}
 	rawV := db.expiration.encodeToRawValue(dt, oldh)
-	return db.ExpireAt(dt, key, rawV, duration+ts/int64(time.Second))
+	return db.ExpireAt(dt, key, rawV, when)
 }
 
 func (db *RockDB) collPersist(ts int64, dt byte, key []byte) (int64, error) {
